@@ -51,6 +51,12 @@ FailedSnapshot(t, j) ==
             IN syn = Members(C[i]) \cap D
       THEN {} ELSE {"correction_reproduces_the_defects_inside_each_cluster"})
 \cup (IF ~last \/ Recs[t].raised = "" THEN {} ELSE {"decode_raised"})
+     \* when clustering is over the forest is flattened: every vertex that was
+     \* touched points directly at the root of its cluster
+\cup (IF ~last \/ \A f \in DOMAIN Recs[t].flat :
+            \A v \in DOMAIN Recs[t].flat[f].parents :
+               Recs[t].flat[f].parents[v] = -1 \/ Recs[t].flat[f].parents[v] \in AsSet(Recs[t].flat[f].roots)
+      THEN {} ELSE {"after_flattening_every_vertex_points_at_a_root"})
 
 FailedStep(t, j) ==   \* from snapshot j - 1 to snapshot j: clusters only grow and merge
   IF j = 1 THEN
